@@ -28,11 +28,11 @@ func (W *vWorld) selection(q *vQuerySpec) [vNE]bool {
 }
 
 type vBatchRec struct {
-	W        *vWorld
-	visits   [vNE]int
+	W         *vWorld
+	visits    [vNE]int
 	strangers int
-	badPtr   int
-	unlocked int
+	badPtr    int
+	unlocked  int
 }
 
 func (r *vBatchRec) see(e Entity) int {
